@@ -291,41 +291,80 @@ def t_err_unwrap(facts, res, tier):
 
 
 @rule("T-LOC-INDEX", floor=4,
-      text="every index into the preprocessor's line map (syntax_error, compiler_error, warning, compile()'s parse-error arm, the --insert_code listing) is bounded: preceded by a comparison of that index with the map's length, or taken through a clamping/`get` accessor; and the offset-to-line loop cannot run past the last line for offset 0")
+      text="every index into the preprocessor's line map (syntax_error, compiler_error, warning, compile()'s parse-error arm, the --insert_code listing) is bounded for every input: guarded by a comparison with the map's length, or clamped to len()-1 after an emptiness test that leaves the function, or taken through `get`; and the offset-to-line loop stops at the requested offset including offset 0")
 def t_loc_index(facts, res, tier):
     from rules_opt import guards_walk
+    n_get = 0
     for fn in facts.fns:
         found = []
         guards_walk(fn["body"], [], found, lambda n: n.get("k") == "index" and "mapped_lines" in expr_text(n["base"]))
+        gets = [n for n in walk(fn["body"]) if n.get("k") == "mcall" and n["method"] == "get" and "mapped_lines" in expr_text(n["recv"])]
+        for g in gets:
+            n_get += 1
+            res.inst("T-LOC-INDEX:%s:get(%s)" % (fn["name"], expr_text(g["args"][0])), True, {"accessor": "get"})
+        if not found:
+            continue
+        lets = {}
+        for n in walk(fn["body"]):
+            if n.get("k") == "let" and n["pat"].get("k") == "ident" and "init" in n:
+                lets.setdefault(n["pat"]["name"], []).append(expr_text(n["init"]).replace(" ", ""))
         groups = {}
         for node, guards in found:
-            it = expr_text(node["idx"])
-            groups.setdefault(it, []).append((node, guards))
-        for it, lst in sorted(groups.items()):
-            node, guards = lst[0]
+            groups.setdefault((expr_text(node["base"]), expr_text(node["idx"])), []).append((node, guards))
+        for (mt, it), lst in sorted(groups.items()):
+            node = lst[0][0]
             key = "T-LOC-INDEX:%s:[%s]" % (fn["name"], it)
-            bounded = False
-            for nd, gs in lst:
-                pass
-            all_bounded = True
+            # emptiness test that leaves the function
+            nonempty = False
+            for n in walk(fn["body"]):
+                if n.get("k") == "if" and expr_text(n["cond"]).replace(" ", "") == "%s.is_empty()" % mt and "return" in expr_text(n["then"]):
+                    nonempty = True
+            all_ok = True
+            why = ""
             for nd, gs in lst:
                 ok = False
+                plain = it.strip("()")
                 for g, pol in gs:
-                    gt = g.replace(" ", "")
-                    if pol and (("%s<" % it.strip("()")) in gt.replace("(", "").replace(")", "")) and "mapped_lines.len()" in gt:
+                    gt = g.replace(" ", "").replace("(", "").replace(")", "")
+                    if pol and gt == "%s<%s.len" % (plain, mt):
                         ok = True
+                m = re.match(r"^(\w+)-1$", plain)
+                var = m.group(1) if m else plain
+                inits = lets.get(var, [])
+                if not ok and m:
+                    # (X-1): X = M.len()  or  X = _.min(M.len())   -- needs a non-empty map
+                    if any(i == "%s.len()" % mt or i.endswith(".min(%s.len())" % mt) for i in inits):
+                        ok = nonempty
+                        if not ok:
+                            why = " (len()-1 underflows on an empty map)"
+                if not ok and not m:
+                    if any(i.endswith(".min((%s.len()-1))" % mt) or i.endswith(".min(%s.len()-1)" % mt) for i in inits):
+                        ok = nonempty
+                        if not ok:
+                            why = " (len()-1 underflows on an empty map)"
                 if not ok:
-                    all_bounded = False
-            # `len() - 1` itself underflows on an empty map
-            if re.match(r"^\(?\w+-1\)?$", it):
-                inner = it.strip("()").split("-")[0]
-                # where does `inner` come from?  `let l = mapped_lines.len()`  -> needs non-empty
-                for s in walk(fn["body"]):
-                    if s.get("k") == "let" and s["pat"].get("k") == "ident" and s["pat"]["name"] == inner and "init" in s and expr_text(s["init"]).endswith("mapped_lines.len()"):
-                        all_bounded = False
-            res.inst(key, True, {"function": fn["name"], "index": it, "sites": len(lst), "bounded": all_bounded})
-            if not all_bounded:
-                res.fail(key, facts.where(fn, node), "%s indexes the line map with `%s` without a bound that holds for every input (offset 0, an empty map, or a position past the last mapped line panic instead of producing an error)" % (fn["name"], it))
+                    all_ok = False
+            res.inst(key, True, {"function": fn["name"], "index": it, "sites": len(lst), "bounded": all_ok, "emptiness_test": nonempty})
+            if not all_ok:
+                res.fail(key, facts.where(fn, node), "%s indexes the line map with `%s` without a bound that holds for every input%s: offset 0, an empty map, or a position past the last mapped line panics instead of producing an error" % (fn["name"], it, why))
+    # the offset -> line loops: the stop test must come before the character is counted
+    for fname in ("syntax_error", "compiler_error", "warning"):
+        fn = facts.fn(fname, "CompilerState")
+        key = "T-LOC-INDEX:%s:offset-loop" % fname
+        res.inst(key)
+        ok = False
+        for n in walk(fn["body"]):
+            if n.get("k") == "for" and "chars()" in expr_text(n["iter"]):
+                st = n["body"]["stmts"]
+                if st and st[0].get("k") == "if" and "break" in expr_text(st[0]["then"]) and "==loc" in expr_text(st[0]["cond"]).replace(" ", "").replace("(", "").replace(")", ""):
+                    ok = True
+                # or an explicit `loc == 0` treatment before the loop
+        if not ok:
+            t = expr_text(fn["body"]).replace(" ", "")
+            if "loc==0" in t:
+                ok = True
+        if not ok:
+            res.fail(key, facts.where(fn), "%s: for offset 0 the offset-to-line loop never meets its stop test and runs to the end of the text (reports the last line, or indexes past the map)" % fname)
 
 
 # ----------------------------------------------------------------------------- variant flow into panicking arms
